@@ -211,26 +211,33 @@ def late_ack_scenarios(W, stale, variants):
     harness-owned proto.Job adapter, worker X is lost (graceful stop / kill with failing calls / kill with hanging calls; standby
     or a fresh worker), the job re-assembles and its Deploy reaches S (still busy), the acknowledgement is released - the
     job refuses it - and S is redeployed. A worker is an operator AND a runner: X is the lost node's worker unless that is S's."""
-    out, seen = [], set()
+    out, seen, survivors = [], set(), []
     for w, b in stale:
         la = late_ack(b)
         if w != W or la is None:
             continue
+        if la[0] not in survivors:
+            survivors.append(la[0])
+        if variants < 3 and survivors.index(la[0]) > 0:
+            continue   # quick: one survivor position
         S = la[0] - 1
         X = la[1][1] - 1
         if X == S or X >= W:
             X = (S + 1) % W
         for n, standby in enumerate((1, 0) if la[2] else (0, 1)):
-            for kind in ("kill-hang", "stop", "kill-fail")[:variants if n == 0 else max(1, variants - 2)]:
+            for kind in ("kill-hang", "stop", "kill-fail")[:3 if n == 0 else 1]:
                 if (S, X, standby, kind) in seen:
                     continue
                 seen.add((S, X, standby, kind))
                 fault = dict(a="stop", w=X, nowait=True) if kind == "stop" else dict(a="kill", w=X, mode=kind[5:])
                 # X's barrier reaches S last (the refusal then goes back to the worker that is lost anyway, S stays a survivor)
                 bar, ack = "barrier:%d->%d" % (X, S), "opack:%d" % S
-                out.append([dict(a="boot", workers=W + standby), dict(a="checkpoint"), dict(a="hold", key=bar), dict(a="hold", key=ack),
-                            dict(a="tick", delivered="%d->%d" % (S, S), **{"await": bar}), dict(a="unhold", key=bar, **{"await": ack}), fault,
-                            dict(a="awaitdeploy", w=S), dict(a="release")])
+                sc = [dict(a="boot", workers=W + standby), dict(a="checkpoint"), dict(a="hold", key=bar), dict(a="hold", key=ack),
+                      dict(a="tick", delivered="%d->%d" % (S, S), **{"await": bar}), dict(a="unhold", key=bar, **{"await": ack}), fault,
+                      dict(a="awaitdeploy", w=S), dict(a="release")]
+                out.append(sc)
+                if kind == "kill-hang" and n == 0:
+                    out.append([st for st in sc if st["a"] != "checkpoint"])   # the same before any checkpoint has completed: nothing to restore from
     return out
 
 
@@ -262,7 +269,7 @@ def real_arm(c, allb, per_w, variants, stale=()):
                 behs.append(scenario(W, s, c.seed + i + v * 3))
         for name in sorted(HAND):
             behs.append(HAND[name](W))
-        late = late_ack_scenarios(W, stale, 3) if W >= 2 else []
+        late = late_ack_scenarios(W, stale, 2 if c.tier == "quick" else 3) if W >= 2 else []
         if W >= 2 and not late:
             c.errors.append("real workers W=%d: no late-acknowledgement schedule was derived from the Dev_StaleCheckpointSurvivesRedeploy witnesses" % W)
         behs = late + behs     # first: they are the cheapest way to a verdict on a tree with that defect
